@@ -54,9 +54,27 @@ Definition w_letter : file := one_site "/case.ts" STop (mk_site CAssign "N" [LIn
 Theorem C02_ts_single_letter_refuted : report MTs magic_actual w_cfg w_letter <> spec_report MTs w_cfg w_letter.
 Proof. vm_compute. discriminate. Qed.
 
+(* for i, w in enumerate(xs, start=6): pass   is reported although `enumerate(xs, 6)` is exempt: the parent of the literal is the
+   ast.keyword node, _is_in_enumerate_call looks at the direct parent only *)
+Definition w_enum_kw : file := one_site "/case.py" SFunc (mk_site CEnumerateKw "val" [LInt RDec [[6]] false ""] 2).
+Definition w_enum_pos : file := one_site "/case.py" SFunc (mk_site CEnumerate "val" [LInt RDec [[6]] false ""] 2).
+Theorem C02_py_enumerate_kw_refuted :
+  report MPy magic_actual w_cfg w_enum_kw <> spec_report MPy w_cfg w_enum_kw
+  /\ report MPy magic_actual w_cfg w_enum_pos = [] /\ spec_report MPy w_cfg w_enum_kw = [].
+Proof. vm_compute. repeat split; try reflexivity; discriminate. Qed.
+
+(* CACHE_TTL = 24 * 3600   is reported twice although it is an UPPER_CASE constant definition (the parent of each literal is the
+   ast.BinOp); `const CACHE_TTL = 24 * 3600;` in TypeScript and `const CACHE_TTL: i64 = 24 * 3600;` in Rust are exempt *)
+Definition s_binop : site := mk_site CUpperBinop "CACHE_TTL" [LInt RDec [[2;4]] false ""; LInt RDec [[3;6;0;0]] false ""] 1.
+Definition w_binop : file := one_site "/case.py" STop s_binop.
+Theorem C02_py_upper_binop_refuted :
+  report MPy magic_actual w_cfg w_binop <> spec_report MPy w_cfg w_binop /\ spec_report MPy w_cfg w_binop = []
+  /\ report MTs magic_actual w_cfg (one_site "/case.ts" STop s_binop) = [] /\ report MRs magic_actual w_cfg (one_site "/case.rs" STop s_binop) = [].
+Proof. vm_compute. repeat split; try reflexivity; discriminate. Qed.
+
 (* each witness is an admissible input, and switching its flag off repairs it *)
 Theorem C02_witnesses_admissible :
-  forallb (file_good MPy) [w_bool; w_neg; w_ann; w_tuple] && forallb (file_good MTs) [w_hex_e; w_bigint; w_marker; w_letter]
+  forallb (file_good MPy) [w_bool; w_neg; w_ann; w_tuple; w_enum_kw; w_binop] && forallb (file_good MTs) [w_hex_e; w_bigint; w_marker; w_letter]
   && file_good MRs w_clash = true
   /\ report MPy (with_flag 0 magic_actual) w_cfg w_bool = spec_report MPy w_cfg w_bool
   /\ report MPy (with_flag 1 magic_actual) w_cfg w_neg = spec_report MPy w_cfg w_neg
@@ -66,5 +84,7 @@ Theorem C02_witnesses_admissible :
   /\ report MTs (with_flag 5 magic_actual) w_cfg w_bigint = spec_report MTs w_cfg w_bigint
   /\ report MTs (with_flag 6 magic_actual) w_cfg w_marker = spec_report MTs w_cfg w_marker
   /\ report MRs (with_flag 7 magic_actual) w_cfg w_clash = spec_report MRs w_cfg w_clash
-  /\ report MTs (with_flag 8 magic_actual) w_cfg w_letter = spec_report MTs w_cfg w_letter.
+  /\ report MTs (with_flag 8 magic_actual) w_cfg w_letter = spec_report MTs w_cfg w_letter
+  /\ report MPy (with_flag 9 magic_actual) w_cfg w_enum_kw = spec_report MPy w_cfg w_enum_kw
+  /\ report MPy (with_flag 10 magic_actual) w_cfg w_binop = spec_report MPy w_cfg w_binop.
 Proof. vm_compute. repeat split; reflexivity. Qed.
